@@ -317,6 +317,9 @@ def run(tier):
     dep_rules(chk)
     c20.seq_rules(chk)
     chk.floor('rule instances', len(chk.obls), 40)
+    # the CCM record layer delegates the tag verdict to br_ccm_check_tag (shared with C14): every tag byte must count
+    from .c14 import tag_compare_shape
+    tag_compare_shape(chk, 'src/aead/ccm.c', 'br_ccm_check_tag', 'br_ccm_get_tag', 'get_tag()')
     from .. import lints
     lints.length_is_boolean(chk, ['src/ssl/ssl_rec', 'src/ssl/ssl_engine'])
     lints.word_codec_maps(chk, ['src/hash/ghash'], floor=2)   # the GCM record tag: every data word absorbed in its own state word
